@@ -42,6 +42,8 @@ func c13Identifiers(limit int) []struct {
 		{"limit-1", rep("a", limit-1)},
 		{"limit", rep("a", limit)},
 		{"limit+1", rep("a", limit+1)},
+		{"limit-bytes-multibyte", append(rep("é", limit/2), rep("a", limit%2)...)},
+		{"limit+1-bytes-multibyte", append(rep("é", limit/2), rep("a", limit%2+1)...)},
 		{"limit-chars-multibyte", rep("é", limit)},
 		{"limit+1-chars-multibyte", rep("é", limit+1)},
 		{"invalid-utf8", []byte{'a', 0xff}},
@@ -65,6 +67,14 @@ func c13Run(c *fx.Ctx) {
 	// 1. BFS with the strict marker model
 	s := &rsearch{prefix: []ev.E{ev.EBD(), ev.EV(0)}, alphabet: c13Alphabet(), depth: c.Pick(7, 9), split: 2, checkVerdict: true}
 	s.run(c)
+	for i, w := range c10Warmups() {
+		rs := &rsearch{warmup: w, tag: []string{"after-complete-doc-and-reset:", "after-aborted-doc-and-reset:"}[i], prefix: []ev.E{ev.EBD(), ev.EV(0)}, alphabet: c13Alphabet(),
+			depth: c.Pick(5, 7), split: 2, checkVerdict: true}
+		rs.run(c)
+	}
+
+	// 1b. builder clause: references are replaced by the marked value in typed and untyped builds
+	c13BuilderClause(c)
 
 	// 2. identifier pathologies, in every identifier-carrying event, default limit and a small configured limit
 	for _, limit := range []int{1000, 5} {
